@@ -276,3 +276,51 @@ example : ((renameFixed [("C", "B"), ("B", "A")] (⟨[("B", 1), ("C", 2)]⟩ : D
            (renameFixed [("C", "B"), ("B", "A")] (⟨[("B", 1), ("C", 2)]⟩ : Dict Nat)).get? "B",
            (renameFixed [("C", "B"), ("B", "A")] (⟨[("B", 1), ("C", 2)]⟩ : Dict Nat)).get? "C") = (some 1, some 2, none) := by
   decide
+
+/-! ### any nesting depth
+
+A path of placements from the top solver down to a component: level `i` places the next lower solver (or, at the end,
+the component) through the rename table `mᵢ`, and that lower level has its own defaults `cdᵢ`.  `descend` is what the
+code does (every level: rename + shield what comes from above, then overlay it on the level's own defaults);
+`descendSpec` is the rule of the property, stated on look-ups only. -/
+
+theorem simul_eq_simulF {V : Type} (m : Table) (d : Dict V) (x : String) : simul m d x = simulF m d.get? x := rfl
+
+/-- the rule: at every level a name gets the value visible above under the name it is exposed by (nothing if it is
+shielded), else that level's own default -/
+def descendSpec {V : Type} (L : String → Option V) : List (Table × Dict V) → String → Option V
+  | [] => L
+  | (m, cd) :: rest => descendSpec (fun x => (simulF m L x).or (Dict.lastOf cd.kv x)) rest
+
+/-- **precedence and renaming at any depth**: for every path of placements (any length, any injective tables, any
+defaults) and every name, the value used at the bottom is the one the rule gives -/
+theorem C05_precedence_any_depth {V : Type} (levels : List (Table × Dict V))
+    (hold : ∀ l ∈ levels, (l.1.map (·.2)).Nodup) (top : Dict V) (htop : top.keys.Nodup) (x : String) :
+    (descend top levels).get? x = descendSpec top.get? levels x := by
+  induction levels generalizing top with
+  | nil => rfl
+  | cons l rest ih =>
+    obtain ⟨m, cd⟩ := l
+    have hm : (m.map (·.2)).Nodup := hold (m, cd) List.mem_cons_self
+    simp only [descend, descendSpec]
+    rw [ih (fun l hl => hold l (List.mem_cons_of_mem _ hl)) _ (solverParams_keys_nodup _ _ _)]
+    congr 1
+    funext y
+    rw [C05_precedence]
+    have hk := renameFixed_keys_nodup m hm top htop
+    rw [Dict.lastOf_eq_get?_of_nodup _ hk, C05_rename_simultaneous m _ hm, simul_eq_simulF]
+    simp [Dict.lastOf]
+
+/-- top of the path: call values over the top solver's defaults (any call, any defaults) -/
+theorem C05_any_depth_from_call {V : Type} (levels : List (Table × Dict V))
+    (hold : ∀ l ∈ levels, (l.1.map (·.2)).Nodup) (pd args : Dict V) (x : String) :
+    (descend (solverParams pd args ⟨[]⟩) levels).get? x =
+      descendSpec (fun y => (Dict.lastOf args.kv y).or (Dict.lastOf pd.kv y)) levels x := by
+  rw [C05_precedence_any_depth levels hold _ (solverParams_keys_nodup _ _ _)]
+  congr 1
+  funext y
+  exact C05_parent_value pd args y
+
+/-! non-vacuity: three levels, a swap at the top, a chain below; the leaf's `A` is driven by the top-level `Q` -/
+example : (descend (⟨[("Q", 5), ("B", 7)]⟩ : Dict Nat)
+            [([("Q", "P")], ⟨[("P", 1)]⟩), ([("P", "B"), ("B", "A")], ⟨[("A", 2), ("B", 3)]⟩)]).get? "B" = some 5 := by decide
